@@ -32,7 +32,8 @@ CONFIG = {
              "nine operators x inverted or not x a term alphabet x {values, keys+values, keys-only} x the four "
              "alias-inclusion modes x expand on/off x both notations (full cross product on B and C for quick-tier "
              "budget reasons sampled by a seeded Latin-style rotation on A and D); a separate stream of malformed "
-             "expressions.  non-trivial = at least one path reported or expected; distinct = distinct "
+             "expressions; (P) process_yaml_file + print_results on 24 documents x 7 expression lists x 8 output-switch "
+             "sets.  non-trivial = at least one path reported or expected (print cases: at least one line printed); distinct = distinct "
              "(document, expression, options)."),
     "trusted_base": [
         "modelled, not verified: yamlpath/commands/yaml_paths.py search_for_paths / yield_children / get_search_term, "
@@ -41,6 +42,9 @@ CONFIG = {
         "the model after loading, with object identities and the merge-key side table read from CommentedMap.merge/_ok)",
         "the re-query of every reported path uses the real Processor.get_nodes (its correctness is C01/C02's subject)",
         "decrypt_eyaml is always off; --refnames (search_anchors) is modelled and tied but outside the property text",
+        "print cases: process_yaml_file runs in-process on a file per document text with stdout captured; the value "
+        "text of --values is an oracle tabulated with the real Processor.get_nodes / jsonify_yaml_data / json.dumps "
+        "on a private copy of the document; --except and multi-document files are not modelled",
     ],
     "assumptions": [
         "the model is the code only as far as the correspondence run shows",
